@@ -29,6 +29,8 @@ type profile struct {
 	nontrivial func(l labels) bool
 	finalDrain bool
 	fair       bool
+	invPaths   []string
+	fixedPrio  bool
 }
 
 func drawConfig(rt *rapid.T, p *profile) worldConfig {
@@ -102,6 +104,8 @@ func runCase(t *testing.T, rt *rapid.T, p *profile) *caseResult {
 		w = newWorld(rt, cfg)
 		w.m.autoTick = rapid.Bool().Draw(rt, "autoTick")
 		w.m.fair = p.fair
+		w.invPaths = p.invPaths
+		w.fixedPriority = p.fixedPrio
 		w.m.observe()
 		n := rapid.IntRange(p.minSteps, p.maxSteps).Draw(rt, "steps")
 		for i := 0; i < n; i++ {
